@@ -58,7 +58,7 @@ def main():
             "thorough_cmd": f"./check {pid} --tier thorough",
             "evidence_file": f"/verif/evidence/{pid}.json",
             "replay_cmd_template": f"./check {pid} --replay {{path}}",
-            "engine": "anyvec_pbt",
+            "engine": "probe_programs" if pid in ("C15", "C16", "C19") else "anyvec_pbt",
             "level_claimed": {"category": level, "text": text, "design_ref": ref},
             "level_note": "Trusted base: rustc 1.95 codegen for the two build profiles (rel/chk), std::vec::Vec as reference model, the harness's element registry, instrumented allocator and guard-zone backends. Nothing is proved; absence of violations holds only for the enumerated bound and the sampled histories.",
             "technique": technique,
@@ -77,6 +77,8 @@ def main():
         "engines": [
             {"name": "anyvec_pbt", "path": "/verif/harness", "serves_properties": [p for p in ALL if p in BUILT and p not in ("C15","C16","C19")],
              "kind_free_text": "Rust harness (path dependency on /repo): choice-sequence case shapes run by a bounded-exhaustive odometer and by proptest, interpreter with Vec reference model, identity registry, instrumented global allocator, guard-zone backends; built in two profiles (rel, chk)"},
+            {"name": "probe_programs", "path": "/verif/probes", "serves_properties": [p for p in ("C15", "C16", "C19") if p in BUILT],
+             "kind_free_text": "python generator of probe programs (grammar x rule-table oracle) judged by rustc against the library built from /repo's working tree; controls for every rejecting probe; C19 additionally runs the harness in both feature sets and compares digests"},
         ],
         "checks": checks,
         "notes": "All checks are driven by ./check (python3): it rebuilds the harness from /repo's working tree (cargo fingerprints), runs the property under both build profiles as child processes (crash containment via breadcrumbs), filters known findings (known_findings.json) and writes evidence/<ID>.json. Exit 2 = inconclusive (build failure/timeout), never a violation.",
